@@ -1,0 +1,86 @@
+//go:build verif
+
+package filesystem
+
+// Contracts for the deductive verifier in /verif (govc). This file contains comments only; it is compiled
+// only with the build tag "verif" and adds no code. Syntax: /verif/DESIGN.md, Appendix A.
+
+//@ prelude fs.smt2 hash.smt2 time.smt2
+
+// inv(FsDb), the data-structure invariant every method requires and preserves (established by NewFilesystemDatabase):
+// MAPS - the maps exist and are distinct objects; ENT - every known alias has a config, an artifact entry and
+// metadata whose config file name contains a dot.
+//@ let MAPS = fsdb != nil && fsdb.configs != nil && fsdb.artifacts != nil && fsdb.fsMetadata != nil && fsdb.profiles != nil && fsdb.subscribersOf != nil && fsdb.configs != fsdb.artifacts && fsdb.configs != fsdb.fsMetadata && fsdb.artifacts != fsdb.fsMetadata && fsdb.profiles != fsdb.configs && fsdb.profiles != fsdb.artifacts && fsdb.profiles != fsdb.fsMetadata
+//@ let ENT = (forall a string :: has(fsdb.configs, a) ==> fsdb.configs[a] != nil && has(fsdb.artifacts, a) && fsdb.artifacts[a] != nil && has(fsdb.fsMetadata, a) && fsdb.fsMetadata[a] != nil && contains(deref(fsdb.fsMetadata[a]).configFileName, "."))
+
+// artifactFileName: the config path with everything from its last dot on replaced by ".pem" (C10, C18)
+//@ func (fsMetadata).artifactFileName returns (r)
+//@   props C10 C18
+//@   requires contains(f.configFileName, ".")
+//@   ensures @C10,C18 r == artNameOf(f.configFileName)
+
+// exportPemFile is the only writer of artifacts: it writes at most the artifact file of the alias, and what it
+// writes is the hash line followed by the certificate, key and request blocks that are present (C10, C13, C14).
+//@ func (*FsDb).exportPemFile returns (err)
+//@   props C10 C13 C14
+//@   let CFG = old(deref(fsdb.configs[alias]))
+//@   let ART = old(deref(fsdb.artifacts[alias]))
+//@   let PATH = artNameOf(old(deref(fsdb.fsMetadata[alias]).configFileName))
+//@   requires fsdb != nil
+//@   requires has(fsdb.configs, alias) ==> fsdb.configs[alias] != nil && has(fsdb.artifacts, alias) && fsdb.artifacts[alias] != nil && has(fsdb.fsMetadata, alias) && fsdb.fsMetadata[alias] != nil && contains(deref(fsdb.fsMetadata[alias]).configFileName, ".")
+//@   modifies FsWrites, FsContent
+//@   assigns fsdb.fsMetadata[alias].LastBuild
+//@   ensures @C10 !old(has(fsdb.configs, alias)) ==> err != nil && FsWrites(0) == old(FsWrites(0))
+//@   ensures @C10 forall p string :: FsWrites(0)[p] ==> (old(FsWrites(0))[p] || p == PATH)
+//@   ensures @C10 forall p string :: p != PATH ==> FsContent(0)[p] == old(FsContent(0))[p]
+//@   ensures @C10,C14 err == nil ==> FsWrites(0)[PATH]
+//@   ensures @C10,C13,C14 err == nil ==> FsContent(0)[PATH] == bcat(bcat(bcat(strBytes(concat(concat("#HASH:", b64(digest(3, jsonBytes(deep(typed(blankV(CFG), "gopki/generator/config.CertificateContent")))))), "\n")), (if ART.Certificate != nil then pemCert(deep(old(deref(ART.Certificate)))) else #bempty)), (if ART.PrivateKey != nil then pemKey(ART.PrivateKey) else #bempty)), (if ART.Request != nil then pemReq(deep(old(deref(ART.Request)))) else #bempty))
+
+// PutBuildArtifact: unknown alias is an error without any write; otherwise the artifact is stored and exported, the
+// only file written is the alias's artifact file, and an export error is returned (C10, C14, C15's per-call clause).
+//@ func (*FsDb).PutBuildArtifact returns (err)
+//@   props C10 C14
+//@   let PATH = artNameOf(old(deref(fsdb.fsMetadata[alias]).configFileName))
+//@   requires MAPS
+//@   requires ENT
+//@   modifies HM_String_Int, HMD_String, HMLEN, FsWrites, FsContent
+//@   assigns fsdb.fsMetadata[alias].LastBuild
+//@   ensures MAPS
+//@   ensures ENT
+//@   ensures @C10 !old(has(fsdb.configs, alias)) ==> err != nil && FsWrites(0) == old(FsWrites(0))
+//@   ensures @C10 forall p string :: FsWrites(0)[p] ==> (old(FsWrites(0))[p] || p == PATH)
+//@   ensures @C10,C14 called("(*gopki/generator/db/filesystem.FsDb).exportPemFile", 1) ==> err == callres("(*gopki/generator/db/filesystem.FsDb).exportPemFile", 1, 0)
+//@   ensures @C14 old(has(fsdb.configs, alias)) ==> has(fsdb.artifacts, alias) && fsdb.artifacts[alias] != nil && deref(fsdb.artifacts[alias]) == artifact
+//@   ensures @C14 forall a string :: a != alias ==> has(fsdb.artifacts, a) == old(has(fsdb.artifacts, a)) && fsdb.artifacts[a] == old(fsdb.artifacts[a])
+//@   ensures forall a string :: has(fsdb.configs, a) == old(has(fsdb.configs, a)) && fsdb.configs[a] == old(fsdb.configs[a]) && has(fsdb.fsMetadata, a) == old(has(fsdb.fsMetadata, a)) && fsdb.fsMetadata[a] == old(fsdb.fsMetadata[a])
+
+// The getters return what the maps hold; an unknown alias gives nil without error (db.Database contract).
+//@ func (*FsDb).GetConfig returns (c, err)
+//@   props C18 C20
+//@   requires fsdb != nil
+//@   ensures err == nil && c == (if has(fsdb.configs, alias) then fsdb.configs[alias] else nil)
+//@ func (*FsDb).GetBuildArtifact returns (b, err)
+//@   props C18 C20
+//@   requires fsdb != nil
+//@   ensures err == nil && b == (if has(fsdb.artifacts, alias) then fsdb.artifacts[alias] else nil)
+//@ func (*FsDb).GetMetadata returns (m, err)
+//@   props C18 C20
+//@   requires fsdb != nil
+//@   requires has(fsdb.fsMetadata, alias) ==> fsdb.fsMetadata[alias] != nil
+//@   ensures err == nil && (has(fsdb.fsMetadata, alias) ==> m != nil && fresh(m) && deref(m) == deref(fsdb.fsMetadata[alias]).Metadata) && (!has(fsdb.fsMetadata, alias) ==> m == nil)
+//@ func (*FsDb).NumEntities returns (n)
+//@   props C18
+//@   requires fsdb != nil
+//@   ensures n == maplen(fsdb.configs)
+//@ func (*FsDb).RootEntities returns (r)
+//@   props C18
+//@   requires fsdb != nil
+//@   ensures r == fsdb.rootAliases
+//@ func (*FsDb).GetSubscribers returns (r)
+//@   props C18
+//@   requires fsdb != nil
+//@   ensures r == (if has(fsdb.subscribersOf, alias) then fsdb.subscribersOf[alias] else typed(#nilSlice, "[]string"))
+//@ func (*FsDb).GetProfile returns (p, err)
+//@   props C18
+//@   requires fsdb != nil
+//@   ensures err == nil && p == (if has(fsdb.profiles, name) then fsdb.profiles[name] else nil)
